@@ -355,11 +355,32 @@ func constantIndexing(c *an.Ctx, fns []*ssa.Function, rule string) {
 				}
 				s, need, what = x.X, k+1, fmt.Sprintf("[%d]", k)
 			case *ssa.Index:
-				if _, isSlice := x.X.Type().Underlying().(*types.Slice); !isSlice {
+				_, isSlice := x.X.Type().Underlying().(*types.Slice)
+				if b, isB := x.X.Type().Underlying().(*types.Basic); isB && b.Info()&types.IsString != 0 {
+					// a byte of a string at a constant position: name[0]
+					if _, isConst := x.X.(*ssa.Const); !isConst {
+						isSlice = true
+					}
+				}
+				if !isSlice {
 					return
 				}
 				k, ok := an.ConstInt(x.Index)
 				if !ok {
+					return
+				}
+				s, need, what = x.X, k+1, fmt.Sprintf("[%d]", k)
+			case *ssa.Lookup:
+				// a byte of a string at a constant position: name[0]
+				b, isB := x.X.Type().Underlying().(*types.Basic)
+				if !isB || b.Info()&types.IsString == 0 || x.CommaOk {
+					return
+				}
+				k, ok := an.ConstInt(x.Index)
+				if !ok {
+					return
+				}
+				if _, isConst := x.X.(*ssa.Const); isConst {
 					return
 				}
 				s, need, what = x.X, k+1, fmt.Sprintf("[%d]", k)
